@@ -5,6 +5,7 @@ from gens import fa as GF
 from sim.core import FAILED
 from sim.steps import LineBudget, BudgetExceeded
 
+from props import scaled as SC
 ID = "C17"
 CASES = {"quick": 450, "thorough": 4500}
 RULE = ("seeded reduced-form indexed grammars (<=4 non-terminals, <=2 indices, <=8 rules; several consumption "
@@ -24,6 +25,9 @@ INTER_BUDGET = 1500000
 
 
 def gen(rng, tier):
+    sc = SC.maybe(rng, ID)
+    if sc is not None:
+        return sc
     nts = NT[:rng.randint(2, 4)]
     idx = IDX[:rng.randint(1, 2)]
     rules = []
@@ -70,6 +74,12 @@ def gen(rng, tier):
 
 
 def shrink(case):
+    if SC.is_scaled(case):
+        return iter(())
+    return _shrink(case)
+
+
+def _shrink(case):
     rs = case["rules"]
     for i in range(len(rs)):
         yield dict(case, rules=rs[:i] + rs[i + 1:])
@@ -129,6 +139,8 @@ def _perms(case):
 
 
 def run(case, out):
+    if SC.is_scaled(case):
+        return SC.run(case, out)
     from pyformlang.indexed_grammar import IndexedGrammar, Rules
     start = case.get("start", "S")
     ref = M.Ig(case["rules"], start=start)
